@@ -74,3 +74,17 @@ Print Assumptions c05_occurrences_are_spec_occs.
 Theorem c05_built_exists : forall ps, exists T, built ps T.
 Proof. exact built_exists. Qed.
 Print Assumptions c05_built_exists.
+
+(* PrefixSearch(key): no panic (Truncate always in range), no fuel exhaustion; exactly the inserted non-empty patterns
+   that start with key and have a rune boundary at |key| (for a key that is valid UTF-8: that start with key), each once *)
+Theorem c05_prefix_search_exact : forall ps key T, Forall is_bytes ps -> is_bytes key -> built ps T ->
+  exists l, prefix_search T key = Ok l /\ NoDup l /\
+    (forall y, In y l <-> In y ps /\ y <> [] /\ is_prefix key y = true /\ is_bound y (length key) = true).
+Proof. exact prefix_search_correct. Qed.
+Print Assumptions c05_prefix_search_exact.
+
+(* ... which is the set the executable specification of the run lists (rune-aligned reading, Model.Trie.spec_prefix) *)
+Theorem c05_prefix_search_is_spec : forall ps key T, Forall is_bytes ps -> is_bytes key -> built ps T ->
+  exists l, prefix_search T key = Ok l /\ NoDup l /\ (forall y, In y l <-> In y (spec_prefix true ps key)).
+Proof. exact prefix_search_spec. Qed.
+Print Assumptions c05_prefix_search_is_spec.
